@@ -200,6 +200,7 @@ type GroupScan struct {
 	Nodes    []*v1.Node
 	MembersAmbiguous bool // see KnownASG.AmbiguousMembers
 	KnownAmbiguous bool // see KnownASG.Ambiguous: true if it held at any point of this group's turn
+	StalePodNodes []string // nodes on which the API server holds a bound pod that the cached population lacks
 	StaleNodes map[string]bool // nodes of the view whose cached copy is older than what the API server holds at list time
 	PodsListed bool
 	Reqs       []*ProvReq // calls on the group's cloudprovider.NodeGroup, in order
